@@ -452,7 +452,7 @@ class DBOS(metaclass=_Meta):
             if ctx is not None:
                 inst.record(ctx.workflow_id, fid, "DBOS.send", conn=c)
             c.commit()
-        _obs("dbos-send", dest=destination_id, topic=topic, msg=type(message).__name__)
+        _obs("dbos-send", dest=destination_id, topic=topic, msg=type(message).__name__, uid=getattr(getattr(message, "event", None), "uid", None))
         _notify()
 
     @staticmethod
